@@ -292,7 +292,10 @@ Pool(a, e, l, ws) ==
                      starving == {s \in live : /\ \/ Unsent(a, w, ep, s) > 0
                                                    \/ (Get(a.lastRes[ep], s, 0) > 0 /\ Get(a.lastCap[ep], s, 0) = 0 /\ ~w.st[s].apiEos /\ ~w.st[s].sendDrop)
                                                 /\ SatAdd(w.pa.iws, w.st[s].sw) > 0 /\ w.cw > 0 /\ w.owed = <<>>
-                                                /\ \A t \in live \ {s} : idle(t)}
+                                                /\ (\A t \in live \ {s} : idle(t))
+                                                \* (a stream whose SendStream was dropped unfinished while another handle keeps it open still owns
+                                                \*  whatever it had reserved - up to its whole window - and no census can ask it: not judged then)
+                                                /\ ~(\E u \in live \ {s} : w.st[u].sendDrop /\ ~w.st[u].apiEos)}
                  IN IF w.dead \/ w.ended \/ w.tainted \/ e.wblocked[ep] \/ a.panicked[ep] \/ live = {} THEN b
                     ELSE IF \E s \in live : Unsent(a, w, ep, s) > 0 \/ Get(a.lastRes[ep], s, 0) > 0
                     THEN Check(b, "C16.pool", starving = {}, l, ep, IF starving = {} THEN 0 ELSE CHOOSE s \in starving : TRUE, starving)
